@@ -426,7 +426,20 @@ fn batch_mutations(ctx: &mut Ctx, prop: &str, n: usize) {
         let c = match new_case(ctx, &mut rng, &id0, npoly) { Some(c) => c, None => continue };
         let cs = match c.comm_scalars() { Some(x) => x, None => continue };
         let nl = range(&mut rng, 2, 3);
-        let (qs, ev) = gen_queries(&mut rng, &c, nl);
+        let (mut qs, mut ev) = gen_queries(&mut rng, &c, nl);
+        if i % 3 == 1 {
+            // two point labels carrying ONE point value, disjoint polynomials under them (+ a third label elsewhere)
+            qs = QuerySet::new();
+            ev = Evaluations::new();
+            let z = Fr::rand(&mut rng);
+            let z2 = Fr::rand(&mut rng);
+            for (j, p) in c.polys.iter().enumerate() {
+                let (pl, pt) = match j { 0 => ("pt0", z), 1 => ("pt1", z), _ => ("pt2", z2) };
+                qs.insert((p.label().clone(), (pl.to_string(), pt)));
+                ev.insert((p.label().clone(), pt), p.evaluate(&pt));
+            }
+            ctx.rep.count("sonic/batch-equal-point-values");
+        }
         let (proofs, ws) = match batch_open(ctx, &mut rng, &id0, &c, &qs) { Ok(x) => x, Err(_) => continue };
         if ws.len() != proofs.len() || !ws.iter().zip(&proofs).all(|(w, p)| g1(*w) == p.w) { continue; }
         let rvs: Vec<Option<Fr>> = proofs.iter().map(|p| p.random_v).collect();
